@@ -116,6 +116,25 @@ def check_pair(ctx, src, tree, d, origin):
         if not again:
             ctx.violation('C11|match-lost-after-sub-query-on-a-bound-expression', case, 'the same pattern matched before the sub-queries and finds nothing afterwards')
             return False
+    # ---- history: a question about OTHER code (valid, or not even parsable) in between ----------------------------------------
+    if ctx.evaluations % 4 == 1:
+        from pedal.cait.cait_api import find_matches as fm, find_asts
+        try:
+            if ctx.evaluations % 8 == 1:
+                fm('print(___)', 'other = 1\nprint(other)\n')
+                kind = 'valid'
+            else:
+                find_asts('For', student_code='for = = 1\n')
+                kind = 'unparsable'
+            ctx.count('queries_about_other_code_in_between')
+            again = fm(pattern)
+        except Exception as e:
+            ctx.violation('C11|find_matches-raised-after-a-query-about-other-code|%s' % type(e).__name__, case, traceback.format_exc()[-300:])
+            return False
+        if not again:
+            ctx.violation('C11|match-lost-after-a-query-about-other-code|%s' % kind, case,
+                          'the pattern matched the submission; after a query about other (%s) code the same query finds nothing' % kind)
+            return False
     return True
 
 
